@@ -160,10 +160,25 @@ func main() {
 			// a boundary of the family that contains base
 			calc := timeutil.Interval(iv).Calculator()
 			fstart := calc.CalcFamilyTime(base)
+			atSegmentStart := r.Chance(40)
+			if atSegmentStart {
+				// the first family of a segment (hour 0 of a day, day 1 of a month, January): its neighbour below lies in
+				// another segment
+				fstart = calc.CalcFamilyTime(calc.CalcSegmentTime(base))
+			}
 			fend := calc.CalcFamilyEndTime(fstart)
 			n := r.Range(2, 7)
 			var tss []int64
 			for j := 0; j < n; j++ {
+				if atSegmentStart {
+					// the first row (it decides the fast path's family) inside, the others inside or just below the segment
+					if j == 0 || r.Bool() || fstart <= 40000 {
+						tss = append(tss, fstart+int64(r.Intn(30000)))
+					} else {
+						tss = append(tss, fstart-1-int64(r.Intn(30000)))
+					}
+					continue
+				}
 				switch r.Intn(5) {
 				case 0:
 					tss = append(tss, fend-int64(r.Intn(30000)))
